@@ -150,6 +150,12 @@ type World struct {
 	db    *dbm.MemDB
 	store dbadapter.Store
 	long  *accum.AccumulatorObject // long-lived handle discipline; nil = fresh handle before each op
+	// "stale" discipline: a handle fetched after the last growth / deletion; every share-changing, claiming or
+	// snapshot call goes through a COPY of it, so the handle's cached total shares are behind the store by all
+	// share changes made since (its value per share is current). NewPosition / AddToPosition / RemoveFromPosition
+	// re-read the total from the store precisely to tolerate this; growth and DeletePosition, which write the
+	// cached total back, go through a fresh handle.
+	stale *accum.AccumulatorObject
 	disc  string
 }
 
@@ -166,13 +172,28 @@ func NewWorld(disc string) *World {
 		}
 		w.long = h
 	}
+	if disc == "stale" {
+		w.refreshStale()
+	}
 	return w
+}
+
+func (w *World) refreshStale() {
+	h, err := accum.GetAccumulator(w.store, accName)
+	if err != nil {
+		panic(err)
+	}
+	w.stale = h
 }
 
 // handle returns the handle the next operation goes through.
 func (w *World) handle() *accum.AccumulatorObject {
 	if w.long != nil {
 		return w.long
+	}
+	if w.stale != nil {
+		c := *w.stale
+		return &c
 	}
 	h, err := accum.GetAccumulator(w.store, accName)
 	if err != nil {
@@ -217,6 +238,9 @@ func (w *World) Copy() *World {
 
 // HandleFields renders the long-lived handle's cached fields (part of the state identity).
 func (w *World) HandleFields() string {
+	if w.stale != nil {
+		return w.stale.GetValue().String() + "|" + w.stale.GetTotalShares().String()
+	}
 	if w.long == nil {
 		return ""
 	}
@@ -304,12 +328,24 @@ type Outcome struct {
 // Exec performs s on the implementation; operands that depend on the state ("all", "cur-1x") are
 // resolved against the reference model m (the state BEFORE the call).
 func Exec(w *World, m *Model, s Sym) (o Outcome) {
+	refresh := false
 	defer func() {
 		if p := recover(); p != nil {
 			o.Panic = panicClass(p)
 		}
+		if refresh && o.Panic == "" && o.Err == nil {
+			w.refreshStale()
+		}
 	}()
 	h := w.handle()
+	if w.stale != nil && (s.K == "grow" || s.K == "del") {
+		fh, err := accum.GetAccumulator(w.store, accName)
+		if err != nil {
+			panic(err)
+		}
+		h = fh
+		refresh = true
+	}
 	iv, ok := intervalOf(m, s.Interval)
 	if !ok {
 		iv = m.G.clone()
